@@ -5,6 +5,7 @@ mod c08;
 mod c09;
 mod c10;
 mod c11;
+mod c12;
 mod c13;
 mod c16;
 mod circ;
@@ -40,6 +41,7 @@ fn main() {
         "bristol-mutate" => c11::cmd_mutate(rest),
         "literals-replay" => c09::cmd_replay(rest),
         "arms-replay" => c08::cmd_replay(rest),
+        "consts-replay" => c12::cmd_replay(rest),
         "c16-replay" => c16::cmd_replay(rest),
         "c16-products" => c16::cmd_products(rest),
         "compile-one" => corpus::cmd_compile_one(rest),
